@@ -2,7 +2,7 @@
 From Coq Require Import ZArith String List DecimalString DecimalZ DecimalFacts Lia.
 From Dimod Require Import Model.CooNum.
 Import ListNotations.
-Open Scope Z_scope.
+Local Open Scope Z_scope.
 
 Lemma frac_roundtrip fp : 0 <= fp < MICRO -> frac_value (frac_digits fp) = fp.
 Proof.
